@@ -1,6 +1,7 @@
 // OS-thread backend of the deterministic scheduler (used by the sanitizer builds; see vsched_uctx.cpp)
 #ifndef VS_UCONTEXT
 #include "vsched.h"
+#include "allocfault.h"
 #include <unistd.h>
 #include <string.h>
 namespace vsched
@@ -109,6 +110,7 @@ static void handover(std::unique_lock<real_mutex> &lk, int kind)
     s.cur_runnable = cur_runnable;
     for (int i = 0; i < n && i < 20; i++)
       s.alts[i] = (uint8_t)ids[i];
+    allocfault::Exempt af_;
     g.out.trace.push_back(s);
   }
   int next = ids[idx];
@@ -272,7 +274,10 @@ void condition_variable::wait(std::unique_lock<mutex> &ul)
     // releasing the mutex, registering as a waiter and blocking are one atomic step, as the standard requires
     std::unique_lock<real_mutex> lk(g.m);
     m->release_in_wait();
-    waiters.push_back(tl_self);
+    {
+      allocfault::Exempt af_;
+      waiters.push_back(tl_self);
+    }
     block(lk, BLK_CV, this);
   }
   m->lock();
@@ -289,7 +294,10 @@ bool condition_variable::timed_wait(std::unique_lock<mutex> &ul)
     g.out.cvwaits++;
     VT *me = g.ts[tl_self].get();
     m->release_in_wait();
-    waiters.push_back(tl_self);
+    {
+      allocfault::Exempt af_;
+      waiters.push_back(tl_self);
+    }
     me->timed = true;
     me->timed_out = false;
     block(lk, BLK_CV, this);
@@ -347,6 +355,7 @@ void thread::start(std::function<void()> f)
     abort();
   }
   std::unique_lock<real_mutex> lk(g.m);
+  allocfault::exempt++; // bookkeeping and the OS thread belong to the harness (until just before the schedule point)
   int id = (int)g.ts.size();
   auto t = std::make_unique<VT>();
   t->id = id;
@@ -367,6 +376,7 @@ void thread::start(std::function<void()> f)
         o->st = RUNNABLE;
     handover(lk, K_EXIT);
   });
+  allocfault::exempt--;
   lk.unlock();
   point(K_SPAWN, nullptr);
 }
